@@ -238,6 +238,7 @@ static int ctx_is(a_tf const *ctx, coef_t const *num, line_t const *in, coef_t c
 }
 
 static char g_desc[900]; /* description of the current run for violation messages */
+static int g_sampled[8]; /* one written-out sample per kind and worker */
 
 /* Runs scenario s on x[0..L) through the real library, y[k] = returned outputs.  Monitors that need no reference
    are evaluated here: zero state after init / set_* / zero, context fields, canaries, coefficient vectors untouched,
@@ -577,9 +578,9 @@ static void tf_exact_cell(vf_rng *r, unsigned nn, unsigned nd, int cls)
             }
         }
     }
-    if (vf_want_sample() && nn >= 2 && nd >= 2 && L >= 8 && cls == CL_RANDOM)
+    if (vf_want_sample() && !g_sampled[0] && nn >= 2 && nd >= 2 && L >= 8 && cls == CL_RANDOM)
     {
-        vf_sample("a_tf exact regime num=%s den=%s, %u random integer inputs |x|<=%d: x[0..3]=%g,%g,%g,%g -> y[0..3]=%.10g,%.10g,%.10g,%.10g, y[%u]=%.17g; all %u outputs bitwise equal "
+        g_sampled[0] = 1, vf_sample("a_tf exact regime num=%s den=%s, %u random integer inputs |x|<=%d: x[0..3]=%g,%g,%g,%g -> y[0..3]=%.10g,%.10g,%.10g,%.10g, y[%u]=%.17g; all %u outputs bitwise equal "
                   "to the reference recurrence; re-run after a_tf_zero identical; superposition and delay identities exact",
                   fmt_vec_g(b1, sizeof b1, num, nn), fmt_vec_g(b2, sizeof b2, den, nd), L, abs(A), X0[0], X0[1], X0[2], X0[3], YL0[0], YL0[1], YL0[2], YL0[3], L - 1, YL0[L - 1], L);
     }
@@ -609,11 +610,16 @@ static void tf_exact_cell(vf_rng *r, unsigned nn, unsigned nd, int cls)
                      s.num[1].c ? fmt_vec_g(b3, sizeof b3, num1, nn1) : "same", s.den[1].c ? fmt_vec_g(b4, sizeof b4, den1, nd1) : "same", CL_NAME[cls], A);
             lib_run(&s, X0, L, YL0, guarded, 0, "exact/reconfig");
             VF_ADD("tf-exact-reconfig-bitwise", L);
-            if (cmp_bitwise("tf_iter/output-ne-difference-equation/exact", YL0, YR0, X0, s.ev_at) == s.ev_at)
             {
-                char key[96];
-                snprintf(key, sizeof key, "%s/outputs-after-reconfiguration-ne-reference/exact", EV_NAME[s.ev] + 2);
-                cmp_bitwise(key, YL0 + s.ev_at, YR0 + s.ev_at, X0 + s.ev_at, L - s.ev_at);
+                /* blame the re-configuration call only if the plain runs of this case (same orders) were clean and the
+                   outputs before the event agree with the reference */
+                int clean = !vf.case_viol;
+                if (cmp_bitwise("tf_iter/output-ne-difference-equation/exact", YL0, YR0, X0, s.ev_at) == s.ev_at)
+                {
+                    char key[96];
+                    snprintf(key, sizeof key, "%s/outputs-after-reconfiguration-ne-reference/exact", EV_NAME[s.ev] + 2);
+                    cmp_bitwise(clean ? key : "tf_iter/output-ne-difference-equation/exact", YL0 + s.ev_at, YR0 + s.ev_at, X0 + s.ev_at, L - s.ev_at);
+                }
             }
         }
         else { VF_COUNT("tf-exact-reconfig-not-reached"); }
@@ -724,9 +730,9 @@ static void tf_real_cell(vf_rng *r, unsigned nn, unsigned nd, int cls)
     VF_ADD("tf-real-onestep", L);
     sm0 = real_onestep(&s, X0, YL0, L, "tf_iter/output-ne-difference-equation/real");
     vf_distinct(cell_hash(nn, nd, cls));
-    if (vf_want_sample() && nn >= 3 && nd >= 3 && L >= 50 && cls == CL_STEP && mode == 1)
+    if (vf_want_sample() && !g_sampled[1] && nn >= 3 && nd >= 3 && L >= 50 && cls == CL_STEP && mode == 1)
     {
-        vf_sample("a_tf real regime num=%s den=%s (stable poles), step input %.6g, %u samples: y[0]=%.17g y[%u]=%.17g; every output within n*eps*sum|terms| of the "
+        g_sampled[1] = 1, vf_sample("a_tf real regime num=%s den=%s (stable poles), step input %.6g, %u samples: y[0]=%.17g y[%u]=%.17g; every output within n*eps*sum|terms| of the "
                   "difference equation evaluated in binary128 on the library's own history",
                   fmt_vec_g(b1, sizeof b1, num, nn), fmt_vec_g(b2, sizeof b2, den, nd), A, L, YL0[0], L - 1, YL0[L - 1]);
     }
@@ -817,7 +823,7 @@ static void tf_real_cell(vf_rng *r, unsigned nn, unsigned nd, int cls)
         {
             char key[96];
             snprintf(key, sizeof key, "%s/outputs-around-reconfiguration-ne-reference/real", EV_NAME[s.ev] + 2);
-            real_onestep(&s, X0, YL0, L, key);
+            real_onestep(&s, X0, YL0, L, vf.case_viol ? "tf_iter/output-ne-difference-equation/real" : key);
         }
         scn_free(&s);
     }
@@ -926,9 +932,9 @@ static void lpf_case(vf_rng *r)
         double y = a_lpf_iter(f, FX[k]);
         if (!same_bits(y, FY[k])) { vf_viol("lpf_zero/rerun-differs-from-first-run", "alpha=%a step %u: %a vs %a", alpha, k, FY[k], y); break; }
     }
-    if (vf_want_sample() && ac == AC_LOG && cls == CL_RANDOM && N > 100)
+    if (vf_want_sample() && !g_sampled[2] && ac == AC_LOG && cls == CL_RANDOM && N > 100)
     {
-        vf_sample("a_lpf alpha=%.6g, %u random inputs in [%.4g,%.4g]: y[%u]=%.10g; every step within 2*eps*sum|terms| of (1-alpha)*y+alpha*x and inside the range of inputs so far",
+        g_sampled[2] = 1, vf_sample("a_lpf alpha=%.6g, %u random inputs in [%.4g,%.4g]: y[%u]=%.10g; every step within 2*eps*sum|terms| of (1-alpha)*y+alpha*x and inside the range of inputs so far",
                   alpha, N, lo, hi, N - 1, FY[N - 1]);
     }
     free(f);
@@ -948,7 +954,20 @@ static void lpf_converge_case(vf_rng *r)
     n = (unsigned)ceil(40 / alpha);
     vf_log("a_lpf_init(alpha=%a), constant input %a for %u+100 steps", alpha, c, n);
     a_lpf_init(f, alpha);
-    for (k = 0; k < n; ++k) { y = a_lpf_iter(f, c); }
+    for (k = 0; k < n; ++k)
+    {
+        /* range clause on the long constant run (this is where rounding excess accumulates, see lpf_case) */
+        double M = fabs(c), slack = 2 * ulp_of(M) + 2 * EPS * M * fmin((double)(k + 1), 1 / alpha), ex;
+        y = a_lpf_iter(f, c);
+        ex = c > 0 ? (y > c ? y - c : y < 0 ? -y : 0) : (y < c ? c - y : y > 0 ? y : 0);
+        if (!(ex <= slack))
+        {
+            vf_viol("lpf_iter/output-outside-range-of-inputs", "alpha=%a constant input %.17g, step %u: output %.17g outside the range by %.3g (slack %.3g)", alpha, c, k, y, ex, slack);
+            break;
+        }
+        if (ex > 0) { VF_MAX("lpf-range-excess/slack", ex / slack); VF_MAX("lpf-range-excess/ulp", ex / ulp_of(M)); }
+    }
+    VF_ADD("lpf-range", n);
     vf.evals += n;
     VF_COUNT("lpf-settles-to-constant");
     if (!(fabs(y - c) <= 1e-12 * fabs(c)))
@@ -962,7 +981,7 @@ static void lpf_converge_case(vf_rng *r)
         if (fabs(y - c) > w) { w = fabs(y - c); }
     }
     if (!(w <= 1e-12 * fabs(c))) { vf_viol("lpf_iter/leaves-constant-input-after-settling", "alpha=%a c=%.17g: |y-c|/|c| up to %.3g in the 100 steps after settling", alpha, c, w / fabs(c)); }
-    if (vf_want_sample() && ac == AC_LOG) { vf_sample("a_lpf alpha=%.6g constant input %.6g: after ceil(40/alpha)=%u steps |y-c|/|c|=%.3g (<=1e-12)", alpha, c, n, fabs(y - c) / fabs(c)); }
+    if (vf_want_sample() && !g_sampled[3] && ac == AC_LOG) { g_sampled[3] = 1, vf_sample("a_lpf alpha=%.6g constant input %.6g: after ceil(40/alpha)=%u steps |y-c|/|c|=%.3g (<=1e-12)", alpha, c, n, fabs(y - c) / fabs(c)); }
     free(f);
 }
 
@@ -1016,9 +1035,9 @@ static void hpf_case(vf_rng *r)
         double y = a_hpf_iter(f, FX[k]);
         if (!same_bits(y, FY[k])) { vf_viol("hpf_zero/rerun-differs-from-first-run", "alpha=%a step %u: %a vs %a", alpha, k, FY[k], y); break; }
     }
-    if (vf_want_sample() && ac == AC_UNIFORM && cls == CL_STEP && N > 200)
+    if (vf_want_sample() && !g_sampled[4] && ac == AC_UNIFORM && cls == CL_STEP && N > 200)
     {
-        vf_sample("a_hpf alpha=%.6g, piecewise-constant input (%.4g / %.4g every 97 samples), %u steps: y[0]=%.10g y[96]=%.6g; every step within 2*eps*alpha*(|y|+|x|+|x_prev|) of alpha*(y+x-x_prev)",
+        g_sampled[4] = 1, vf_sample("a_hpf alpha=%.6g, piecewise-constant input (%.4g / %.4g every 97 samples), %u steps: y[0]=%.10g y[96]=%.6g; every step within 2*eps*alpha*(|y|+|x|+|x_prev|) of alpha*(y+x-x_prev)",
                   alpha, A, -0.5 * A, N, FY[0], FY[96]);
     }
     free(f);
@@ -1058,7 +1077,7 @@ static void hpf_decay_case(vf_rng *r)
         if (fabs(y) > w) { w = fabs(y); }
     }
     if (!(w < 1e-12 * fabs(c))) { vf_viol("hpf_iter/grows-again-on-constant-input", "alpha=%a c=%.17g: |y|/|c| up to %.3g in the 100 steps after the decay", alpha, c, w / fabs(c)); }
-    if (vf_want_sample() && ac == AC_LOG) { vf_sample("a_hpf alpha=%.9g constant input %.6g: y[0]=%.6g, after ceil(40/(1-alpha))=%u steps |y|/|c|=%.3g (<1e-12)", alpha, c, y0, n, fabs(y) / fabs(c)); }
+    if (vf_want_sample() && !g_sampled[5] && ac == AC_LOG) { g_sampled[5] = 1, vf_sample("a_hpf alpha=%.9g constant input %.6g: y[0]=%.6g, after ceil(40/(1-alpha))=%u steps |y|/|c|=%.3g (<1e-12)", alpha, c, y0, n, fabs(y) / fabs(c)); }
     free(f);
 }
 
@@ -1127,8 +1146,9 @@ static void rc_exact_case(vf_rng *r)
 /* ---------------------------------------------------------------- coefficient generators
    range [0,1] for all positive finite fc, ts (incl. subnormal and near-overflow: the formulas saturate to 0 or 1);
    strictly inside (0,1) for 1e-12 <= fc*ts <= 1e12 (fc, ts individually within [1e-100,1e100] so that no intermediate
-   over/underflows); value = header formula: lpf ts/(1/(2 pi fc)+ts), hpf 1/(2 pi fc ts+1) within 4*eps relative
-   (a-priori: <= 4 resp. 5 roundings incl. the rounded constant -> <= 2.5*eps; worst observed over seeds 1..5: see VF_MAX) */
+   over/underflows); value = header formula: lpf ts/(1/(2 pi fc)+ts), hpf 1/(2 pi fc ts+1) within 8*eps relative
+   (a-priori: 4 resp. 5 roundings incl. the rounded constant -> <= 2.5*eps; worst observed over seeds 1..5, quick+thorough:
+   1.8 eps, so 8*eps leaves > 4x head-room) */
 static void gen_case(vf_rng *r)
 {
     __float128 const tau = 2 * M_PIq;
@@ -1160,8 +1180,8 @@ static void gen_case(vf_rng *r)
             if (!(al > 0 && al < 1)) { vf_viol("lpf_gen/not-strictly-inside-for-moderate-product", "a_lpf_gen(fc=%a, ts=%a) = %a, fc*ts=%.17g", fc, ts, al, prod); }
             if (!(ah > 0 && ah < 1)) { vf_viol("hpf_gen/not-strictly-inside-for-moderate-product", "a_hpf_gen(fc=%a, ts=%a) = %a, fc*ts=%.17g", fc, ts, ah, prod); }
             VF_COUNT("gen-header-formula");
-            if (!(el <= 4 * EPS)) { vf_viol("lpf_gen/value-ne-header-formula", "a_lpf_gen(fc=%a, ts=%a) = %.17g, ts/(1/(2 pi fc)+ts) = %.17g (rel %.3g)", fc, ts, al, (double)ql, el); }
-            if (!(eh <= 4 * EPS)) { vf_viol("hpf_gen/value-ne-header-formula", "a_hpf_gen(fc=%a, ts=%a) = %.17g, 1/(2 pi fc ts+1) = %.17g (rel %.3g)", fc, ts, ah, (double)qh, eh); }
+            if (!(el <= 8 * EPS)) { vf_viol("lpf_gen/value-ne-header-formula", "a_lpf_gen(fc=%a, ts=%a) = %.17g, ts/(1/(2 pi fc)+ts) = %.17g (rel %.3g)", fc, ts, al, (double)ql, el); }
+            if (!(eh <= 8 * EPS)) { vf_viol("hpf_gen/value-ne-header-formula", "a_hpf_gen(fc=%a, ts=%a) = %.17g, 1/(2 pi fc ts+1) = %.17g (rel %.3g)", fc, ts, ah, (double)qh, eh); }
             VF_MAX("lpf-gen-relerr/eps", el / EPS);
             VF_MAX("hpf-gen-relerr/eps", eh / EPS);
             {
@@ -1170,10 +1190,117 @@ static void gen_case(vf_rng *r)
                 if (!same_bits(gl.alpha, al) || gl.output != 0) { vf_viol("lpf_gen/A_LPF_2-initialiser-differs", "fc=%a ts=%a: %a vs %a", fc, ts, gl.alpha, al); }
                 if (!same_bits(gh.alpha, ah) || gh.output != 0 || gh.input != 0) { vf_viol("hpf_gen/A_HPF_2-initialiser-differs", "fc=%a ts=%a: %a vs %a", fc, ts, gh.alpha, ah); }
             }
-            if (vf_want_sample() && mode == 3 && i > 100)
+            if (vf_want_sample() && !g_sampled[6] && mode == 3 && i > 100)
             {
-                vf_sample("a_lpf_gen(fc=%.6g, ts=%.6g)=%.17g, a_hpf_gen=%.17g: both strictly inside (0,1), rel. distance to the header formulas %.2g/%.2g eps", fc, ts, al, ah, el / EPS, eh / EPS);
+                g_sampled[6] = 1, vf_sample("a_lpf_gen(fc=%.6g, ts=%.6g)=%.17g, a_hpf_gen=%.17g: both strictly inside (0,1), rel. distance to the header formulas %.2g/%.2g eps", fc, ts, al, ah, el / EPS, eh / EPS);
             }
         }
+    }
+}
+
+/* ---------------------------------------------------------------- the repo's own test (test/tf.h): same coefficients and input samples */
+static double const REPO_U[] = {
+    2000.0, -652.99418, -344.66975, -168.84826, -133.5101, -109.5296, -86.454203, -67.783481, -53.22429, -41.808457, -32.835939, -25.786913, -20.2509, 
+    -15.903432, -12.489385, -9.8083792, -7.703033, -6.0497455, -4.7514505, -3.731923, -2.9313047, -2.3025903, -1.8088678, -1.4211508, -1.1166775, 
+    -0.87757332, -0.68980192, -0.54234094, -0.42653479, -0.33558647, -0.26415848, -0.2080594, -0.16399783, -0.12938911, -0.10220358, -0.080847398, 
+    -0.064068962, -0.050885415, -0.040524947, -0.032381475, -0.025979056, -0.020943941, -0.016982637, -0.013864667, -0.011409044, -0.0094736412, 
+    -0.00794685, -0.0067410251, -0.0057873396, -0.0050317445, -0.0044317954, -0.0039541603, -0.0035726634, -0.0032667484, -0.0030202717, -0.002820555, 
+    -0.0026576412, -0.0025237103, -0.00241262, -0.0023195462, -0.0022406992, -0.0021731023, -0.0021144168, -0.002062805, -0.0020168229, -0.0019753356, 
+    -0.0019374509, -0.0019024669, -0.0018698319, -0.0018391113, -0.0018099631, -0.0017821178, -0.0017553627, -0.00172953, -0.001704487, -0.0016801285, 
+    -0.0016563712, -0.0016331487, -0.0016104081, -0.0015881069, -0.0015662109, -0.0015446926, -0.0015235294, -0.0015027029, -0.0014821978, -0.0014620014, 
+    -0.0014421028, -0.0014224928, -0.0014031634, -0.0013841076, -0.0013653192, -0.0013467927, -0.0013285228, -0.001310505, -0.0012927348, -0.0012752081, 
+    -0.001257921, -0.0012408699, -0.0012240512, -0.0012074614, 
+};
+
+static void tf_repo_case(void)
+{
+    scn_t s;
+    double num[2] = {6.59492796e-05, 6.54019884e-05}, den[2] = {-1.97530991, 0.97530991};
+    unsigned L = (unsigned)(sizeof REPO_U / sizeof *REPO_U);
+    memset(&s, 0, sizeof s);
+    coef_alloc(&s.num[0], 2, num);
+    coef_alloc(&s.den[0], 2, den);
+    snprintf(g_desc, sizeof g_desc, "coefficients and the %u input samples of /repo/test/tf.h", L);
+    for (int guarded = 0; guarded < 2; ++guarded)
+    {
+        lib_run(&s, REPO_U, L, YL0, guarded, 1, "repo-test");
+        VF_ADD("tf-real-onestep", L);
+        real_onestep(&s, REPO_U, YL0, L, "tf_iter/output-ne-difference-equation/real");
+        /* the test plots the output against the set-point 1.0: with "den[0] multiplies y[k-1]" the loop settles there
+           (reference: y[50]=1.002, y[99]=1.00103); any other reading of the index convention diverges or stays near 0 */
+        VF_COUNT("tf-repo-test-tracks-setpoint");
+        if (!(fabs(YL0[L - 1] - 1.0) < 0.01 && fabs(YL0[50] - 1.0) < 0.01))
+        {
+            vf_viol("tf_iter/repo-test-does-not-track-setpoint", "y[50]=%.9g y[%u]=%.9g, expected within 0.01 of the set-point 1.0", YL0[50], L - 1, YL0[L - 1]);
+        }
+    }
+    if (vf_want_sample())
+    {
+        vf_sample("repo test data (test/tf.h: num={6.59492796e-05,6.54019884e-05}, den={-1.97530991,0.97530991}, 100 controller outputs): y[0]=%.6g y[10]=%.6g y[50]=%.6g y[99]=%.6g -> "
+                  "settles at the plotted set-point 1.0, confirming y[k]=sum num[i]x[k-i]-sum den[i]y[k-1-i]",
+                  YL0[0], YL0[10], YL0[50], YL0[99]);
+    }
+    scn_free(&s);
+}
+
+/* ---------------------------------------------------------------- plan */
+enum { K_TF_REPO, K_TF_EXACT, K_TF_REAL, K_LPF, K_LPF_CONV, K_HPF, K_HPF_DECAY, K_RC_EXACT, K_GEN };
+typedef struct { int kind; unsigned arg; } plan_t;
+static plan_t *plan;
+static uint64_t nplan;
+static void plan_add(int kind, unsigned arg)
+{
+    static uint64_t cap;
+    if (nplan == cap)
+    {
+        cap = cap ? cap * 2 : 4096;
+        plan = (plan_t *)realloc(plan, cap * sizeof(*plan));
+        if (!plan) { exit(2); }
+    }
+    plan[nplan].kind = kind;
+    plan[nplan].arg = arg;
+    ++nplan;
+}
+static void vf_init(void)
+{
+    unsigned rep, pair, i;
+    unsigned reps = vf.tier ? 400 : 12; /* repetitions of each (num_n, den_n) pair in each regime; every case runs all 4 input classes */
+    plan_add(K_TF_REPO, 0);
+    for (rep = 0; rep < reps; ++rep)
+    {
+        for (pair = 0; pair < 81; ++pair)
+        {
+            plan_add(K_TF_EXACT, pair);
+            plan_add(K_TF_REAL, pair);
+        }
+        /* interleave the first-order filter cases so that every worker gets a mix */
+        for (i = 0; i < 24; ++i) { plan_add(K_LPF, i); plan_add(K_HPF, i); }
+        for (i = 0; i < 8; ++i) { plan_add(K_LPF_CONV, i); plan_add(K_HPF_DECAY, i); }
+        for (i = 0; i < 16; ++i) { plan_add(K_RC_EXACT, i); }
+        for (i = 0; i < 4; ++i) { plan_add(K_GEN, i); }
+    }
+}
+static uint64_t vf_ncases(int tier) { (void)tier; return nplan; }
+
+static void vf_case(uint64_t c, vf_rng *r)
+{
+    plan_t p = plan[c];
+    unsigned nn = p.arg / 9, nd = p.arg % 9;
+    switch (p.kind)
+    {
+    case K_TF_REPO: tf_repo_case(); break;
+    case K_TF_EXACT:
+        for (int cls = 0; cls < NCLASS; ++cls) { tf_exact_cell(r, nn, nd, cls); }
+        break;
+    case K_TF_REAL:
+        for (int cls = 0; cls < NCLASS; ++cls) { tf_real_cell(r, nn, nd, cls); }
+        break;
+    case K_LPF: lpf_case(r); break;
+    case K_LPF_CONV: lpf_converge_case(r); break;
+    case K_HPF: hpf_case(r); break;
+    case K_HPF_DECAY: hpf_decay_case(r); break;
+    case K_RC_EXACT: rc_exact_case(r); break;
+    case K_GEN: gen_case(r); break;
+    default: break;
     }
 }
